@@ -1178,6 +1178,9 @@ func ext۰reflect۰Value۰SetMapIndex(fr *frame, args []value) value {
 	if m == nil {
 		panic(targetPanic{iface{i.runtimeErrorString, "assignment to entry in nil map"}})
 	}
+	i.guardCheck(m, true, "reflect SetMapIndex")
+	i.publishedWrite(m, "reflect SetMapIndex")
+	i.publish(m, ev)
 	m.insert(i, k, ev)
 	return nil
 }
